@@ -134,32 +134,32 @@ Proof. unfold within. rewrite (proj2 (path_eqb_eq r r) eq_refl). reflexivity. Qe
 
 (* ---- existing_prefix returns a prefix whose next name is absent *)
 Section ResolveFacts.
-  Variable lstat : path -> bool.
+  Variable lstat : path -> lres.
   Variable evalsym : path -> option path.
 
   Lemma existing_prefix_spec abs : forall rs ex,
-    existing_prefix lstat abs rs = Some ex ->
-    exists rem, rev rs = ex ++ rem /\ lstat (abs, ex) = true /\
-                match rem with [] => True | x :: _ => lstat (abs, ex ++ [x]) = false end.
+    existing_prefix lstat V2 abs rs = EFound ex ->
+    exists rem, rev rs = ex ++ rem /\ lstat (abs, ex) = LYes /\
+                match rem with [] => True | x :: _ => lstat (abs, ex ++ [x]) = LNo end.
   Proof.
     induction rs as [|s rs IH]; intros ex H.
-    - cbn in H. destruct (lstat (abs, [])) eqn:E; [|discriminate]. inversion H; subst.
+    - cbn in H. destruct (lstat (abs, [])) eqn:E; try discriminate. inversion H; subst.
       exists []. auto.
     - cbn [existing_prefix] in H. destruct (lstat (abs, rev (s :: rs))) eqn:E.
       + inversion H; subst. exists []. rewrite app_nil_r. auto.
-      + destruct (existing_prefix lstat abs rs) as [ex'|] eqn:E'; [|discriminate].
-        inversion H; subst ex'. destruct (IH _ eq_refl) as (rem & Hrev & Hl & Hnext).
+      + destruct (IH _ H) as (rem & Hrev & Hl & Hnext).
         exists (rem ++ [s]). cbn [rev]. rewrite Hrev, app_assoc. repeat split; auto.
         destruct rem as [|x rem']; cbn [app].
         * rewrite app_nil_r in Hrev. rewrite <- Hrev. cbn [rev] in E. exact E.
         * exact Hnext.
+      + cbn [fix2] in H. discriminate.
   Qed.
 
-  Lemma existing_prefix_some abs : lstat (abs, []) = true -> forall rs, existing_prefix lstat abs rs <> None.
+  Lemma existing_prefix_some abs : lstat (abs, []) = LYes -> forall rs, existing_prefix lstat V2 abs rs <> ENone.
   Proof.
     intros H0. induction rs as [|s rs IH]; cbn [existing_prefix].
-    - cbn. rewrite H0. discriminate.
-    - destruct (lstat (abs, rev (s :: rs))); [discriminate | exact IH].
+    - cbn [rev]. rewrite H0. discriminate.
+    - destruct (lstat (abs, rev (s :: rs))); [discriminate | exact IH | cbn; discriminate].
   Qed.
 End ResolveFacts.
 
@@ -191,11 +191,11 @@ Lemma abs_normal_plain p : normal p -> fst p = true -> Forall plain (snd p).
 Proof. intros (k & pl & -> & Hpl & Hk) Ha. rewrite (Hk Ha). exact Hpl. Qed.
 
 (* ---- C26 lexical: whatever the spelling, the result is the cleaned root plus plain names *)
-Lemma resolve_nofs fixd cand root : resolve no_lstat no_evalsym fixd cand root = cand.
+Lemma resolve_nofs v cand root : resolve no_lstat no_evalsym v cand root = cand.
 Proof. reflexivity. Qed.
 
-Lemma lexical fixd root p :
-  descends (sandbox_join_p no_lstat no_evalsym fixd root p) (clean_str root).
+Lemma lexical v root p :
+  descends (sandbox_join_p no_lstat no_evalsym v root p) (clean_str root).
 Proof.
   unfold sandbox_join_p. 
   destruct (within (clean_str p) (clean_str root)) eqn:E1.
@@ -210,33 +210,34 @@ Qed.
    (the place the kernel reaches through a path, final links followed; None = the call fails
    before reaching anything) with the laws relating them. *)
 Section Resolved.
-  Variable lstat : path -> bool.
+  Variable lstat : path -> lres.
   Variable evalsym : path -> option path.
   Variable touch : path -> option path.
-  Hypothesis root_exists : lstat (true, []) = true.
+  Hypothesis root_exists : lstat (true, []) = LYes.
   Hypothesis real_normal : forall p r, evalsym p = Some r -> normal r /\ fst r = true.
   Hypothesis real_fixed : forall p r, evalsym p = Some r -> evalsym r = Some r.
   Hypothesis touch_real : forall p r, evalsym p = Some r -> touch p = Some r.
   Hypothesis touch_absent : forall p r x rest,
-    evalsym p = Some r -> lstat (fst p, snd p ++ [x]) = false ->
+    evalsym p = Some r -> plain x -> lstat (fst p, snd p ++ [x]) = LNo ->
     touch (fst r, snd r ++ x :: rest) = None \/ touch (fst r, snd r ++ x :: rest) = Some (fst r, snd r ++ [x]).
 
   Lemma resolve_touch cand root rroot :
     normal cand -> fst cand = true -> evalsym root = Some rroot ->
-    match touch (resolve lstat evalsym true cand root) with
+    match touch (resolve lstat evalsym V2 cand root) with
     | None => True
     | Some q => descends q rroot
     end.
   Proof.
     intros Hn Habs Hroot. unfold resolve. rewrite Hroot.
-    destruct (existing_prefix lstat (fst cand) (rev (snd cand))) as [ex|] eqn:Eex.
-    2:{ exfalso. rewrite Habs in Eex. revert Eex. apply existing_prefix_some, root_exists. }
-    destruct (existing_prefix_spec lstat (fst cand) _ _ Eex) as (rem & Hrev & Hl & Hnext).
-    rewrite rev_involutive in Hrev.
     assert (Hrootq : descends rroot rroot).
     { split; [reflexivity|]. exists []. rewrite app_nil_r. auto. }
-    destruct (evalsym (fst cand, ex)) as [res|] eqn:Eres.
+    destruct (existing_prefix lstat V2 (fst cand) (rev (snd cand))) as [ex| |] eqn:Eex.
+    2:{ exfalso. rewrite Habs in Eex. revert Eex. apply existing_prefix_some, root_exists. }
     2:{ rewrite (touch_real _ _ Hroot). exact Hrootq. }
+    destruct (existing_prefix_spec lstat (fst cand) _ _ Eex) as (rem & Hrev & Hl & Hnext).
+    rewrite rev_involutive in Hrev.
+    destruct (evalsym (fst cand, ex)) as [res|] eqn:Eres.
+    2:{ cbn [fix1]. rewrite (touch_real _ _ Hroot). exact Hrootq. }
     destruct (within res rroot) eqn:Ew; cbn [negb].
     2:{ rewrite (touch_real _ _ Hroot). exact Hrootq. }
     destruct (real_normal _ _ Eres) as [Hresn Hresabs].
@@ -257,14 +258,15 @@ Section Resolved.
         apply segs_eqb_eq in E. inversion E; subst. inversion Hplain as [|? ? Hx _]; subst.
         unfold plain in Hx. cbn in Hx. discriminate. }
       rewrite Hnd. rewrite join_plain by assumption.
-      destruct (touch_absent (ca, ex) res x rem' Eres Hnext) as [Ht|Ht]; rewrite Ht; [exact I|].
+      assert (Hpx : plain x) by (inversion Hplain; assumption).
+      destruct (touch_absent (ca, ex) res x rem' Eres Hpx Hnext) as [Ht|Ht]; rewrite Ht; [exact I|].
       split; [assumption|]. exists (rest0 ++ [x]). rewrite Hseg, app_assoc. split; [reflexivity|].
       apply Forall_app. split; [assumption|]. inversion Hplain; subst. constructor; auto.
   Qed.
 
   Lemma resolved root p rroot :
     is_abs root = true -> evalsym (clean_str root) = Some rroot ->
-    match touch (sandbox_join_p lstat evalsym true root p) with
+    match touch (sandbox_join_p lstat evalsym V2 root p) with
     | None => True
     | Some q => descends q rroot
     end.
@@ -290,13 +292,13 @@ Definition wit_root : str := [47;115;98].           (* /sb *)
 Definition wit_p : str := [100].                    (* d *)
 
 Lemma old_refuted :
-  let res := sandbox_join_p (lstat_t wit_fs) (evalsym_t wit_fs) false wit_root wit_p in
+  let res := sandbox_join_p (lstat_t wit_fs) (evalsym_t wit_fs) V0 wit_root wit_p in
   evalsym_t wit_fs (clean_str wit_root) = Some (true, [[115;98]]) /\
   touch_t wit_fs res = Some (true, [[111;117;116]; [110;101;119]]) /\
   below (true, [[111;117;116]; [110;101;119]]) (true, [[115;98]]) = false.
 Proof. vm_compute. auto. Qed.
 
 Lemma fixed_witness :
-  let res := sandbox_join_p (lstat_t wit_fs) (evalsym_t wit_fs) true wit_root wit_p in
+  let res := sandbox_join_p (lstat_t wit_fs) (evalsym_t wit_fs) V2 wit_root wit_p in
   touch_t wit_fs res = Some (true, [[115;98]]).
 Proof. vm_compute. reflexivity. Qed.
